@@ -800,6 +800,16 @@ func c03r4(c *core.Ctx) {
 			_, ok := core.FieldLoad(core.Receiver(i), mod+"/hap.Connection", "connection")
 			return ok
 		})
+		if spec.name == "Read" {
+			// the plain-text read may take its byte from the connection's read-ahead buffer (the reader it waited on) instead of the socket
+			rawSites = append(rawSites, core.FindCalls(f, func(i ssa.Instruction) bool {
+				if !core.IsCall(i, "(*bufio.Reader).Read") {
+					return false
+				}
+				_, ok := core.FieldLoad(core.Receiver(i), mod+"/hap.Connection", "bufferedReader")
+				return ok
+			})...)
+		}
 		okEnc := len(encSites) > 0
 		for _, s := range encSites {
 			if !core.Dominated(s, nonNil) {
